@@ -963,6 +963,20 @@ func callBuiltin(caller *frame, callpos token.Pos, fn *ssa.Builtin, args []value
 			return arg0
 		}
 		// append([]T, ...[]T) []T
+		if w := caller.i.W; w.m.race != nil && w.m.race.on && len(w.m.threads) > 1 {
+			// gosym: element reads of the appended slice and, when the result stays in the
+			// same backing array, element writes behind len(args[0])
+			dst, add := args[0].([]value), args[1].([]value)
+			for k := range add {
+				w.access(&add[k], false)
+			}
+			if len(dst)+len(add) <= cap(dst) {
+				full := dst[:cap(dst)]
+				for k := len(dst); k < len(dst)+len(add); k++ {
+					w.access(&full[k], true)
+				}
+			}
+		}
 		res := append(args[0].([]value), args[1].([]value)...)
 		// gosym: the spare capacity must hold zero values (code may re-slice into it)
 		if cap(res) > len(res) {
@@ -984,6 +998,13 @@ func callBuiltin(caller *frame, callpos token.Pos, fn *ssa.Builtin, args []value
 		if _, ok := src.(string); ok {
 			params := fn.Type().(*types.Signature).Params()
 			src = conv(params.At(0).Type(), params.At(1).Type(), src)
+		}
+		if w := caller.i.W; w.m.race != nil && w.m.race.on && len(w.m.threads) > 1 {
+			d, sv := args[0].([]value), src.([]value)
+			for k := 0; k < len(d) && k < len(sv); k++ {
+				w.access(&sv[k], false)
+				w.access(&d[k], true)
+			}
 		}
 		return copy(args[0].([]value), src.([]value))
 
